@@ -863,6 +863,9 @@ def refusal_graders():
         'Interval': IntervalGrader(answers='[1,2)'),
         'M_noneg': MatrixGrader(answers='A', variables=['A'], sample_from={'A': DiscreteSet(A)}, max_array_dim=2, negative_powers=False),
         'M_shape_detail': MatrixGrader(answers='[1,2]', answer_shape_mismatch={'is_raised': True, 'msg_detail': 'shape'}),
+        # alternatives of different shapes inside one answer, mismatch policy left at its default (raise)
+        'M_alt_shapes': MatrixGrader(answers={'expect': ('[1,2]', '[1,2,3]')}),
+        'M_alt_shapes_rev': MatrixGrader(answers={'expect': ('[1,2,3]', '[1,2]')}),
     }
 
 
@@ -873,6 +876,15 @@ REFUSALS = [
     ('SL', 'a,', 'empty last list entry', ('MissingInput',), None),
     ('SL', 'a, ,b', 'blank list entry', ('MissingInput',), None),
     ('SL', '', 'empty list', ('MissingInput',), None),
+    # the shape mismatch against ANY alternative of the answer is reported, whichever alternative is listed first
+    ('M_alt_shapes', '[1, 2]', 'shape mismatch against a later alternative', ('InputTypeError',), None),
+    ('M_alt_shapes_rev', '[1, 2]', 'shape mismatch against an earlier alternative', ('InputTypeError',), None),
+    ('M_alt_shapes', '[1, 2, 3]', 'shape mismatch against an earlier alternative (3)', ('InputTypeError',), None),
+    # an entry made of whitespace other than the plain space is blank too
+    ('SL', 'a,\t,b', 'blank list entry (tab)', ('MissingInput',), None),
+    ('SL', 'a,\u00a0,b', 'blank list entry (no-break space)', ('MissingInput',), None),
+    ('SL', 'a, \t \u3000,b', 'blank list entry (mixed whitespace)', ('MissingInput',), None),
+    ('SL', '\t,a', 'blank first list entry (tab)', ('MissingInput',), None),
     ('SL_len', 'a', 'too few list entries', ('MissingInput',), None),
     ('SL_len', 'a,b,c', 'too many list entries', ('MissingInput',), None),
     ('SL_nested', 'a,b;', 'empty inner list', ('MissingInput',), None),
